@@ -230,6 +230,163 @@ def regressions : List Case :=
     mk "annotations" "def f(a: 1, b: 2 = 51, *s: 3, k: 4 = 60, **d: 5) -> 6: return (a, b, k, s, d, ) ## f(10)" "(10 51 60 () {})",
     mk "method-self" "class C:\\n    def m(self, a, b=51, *s, k=60, **d): return (a, b, k, s, d, )\\nf = C().m ## f(10, 11, 12, z=20)" "(10 11 60 (12) {z:20})" ]
 
+
+/-! ## Round 3: callees with a body – locals beyond the parameters, cells, free variables, generators
+
+Input line:  `loc:<reach>:<shape>/<sig class>/<call class> | <def source> ## <call source>`
+(`## @ <tuple source> @ <dict source or ->` for a call through `py.Call` from Go).
+V = the `locals()` dictionary at entry extended by every unbound local (`name=-`), sorted by name,
+prefixed `gen:` when the call returned a generator (the snapshot is then taken by the first `next`).
+R = the layout of the code object (`co_varnames | co_cellvars | co_freevars | cell2arg`), for a
+generator also the raw `Localsplus` of the not yet started frame. -/
+
+def showObj : Obj → String
+  | .val v => showVal v
+  | .tuple l => showVals l
+  | .dict d => showDict d
+
+def sortNs {α} (d : List (Name × α)) : List (Name × α) :=
+  d.foldl (fun acc kv =>
+    let (lo, hi) := acc.span (fun p => p.1 < kv.1)
+    lo ++ [kv] ++ hi) []
+
+def showNamespace (gen : Bool) (ns : List (Name × Option Obj)) : String :=
+  (if gen then "gen:" else "") ++ "{" ++ " ".intercalate ((sortNs ns).map (fun kv =>
+    kv.1 ++ "=" ++ (match kv.2 with | some o => showObj o | none => "-"))) ++ "}"
+
+def dedupNames (l : List Name) : List Name := l.foldl (fun acc n => if acc.contains n then acc else acc ++ [n]) []
+
+/-- model V: `FastToLocals` of the ready frame, shown over all names of the code object -/
+def showEntry (fc : FullCode) : Except Err Entry → String
+  | .error e => e.py
+  | .ok en =>
+    match fastToLocals fc en.localsplus with
+    | .error e => e.py
+    | .ok d =>
+      let names := dedupNames (fc.co.varnames ++ fc.cellvars ++ fc.freevars)
+      showNamespace en.generator (names.map (fun n => (n, d.lookup n)))
+
+def showSlot : Slot → String
+  | .local none => "-"
+  | .local (some o) => showObj o
+  | .cell none => "c[-]"
+  | .cell (some o) => "c[" ++ showObj o ++ "]"
+
+def showLayout (fc : FullCode) (en : Except Err Entry) : String :=
+  "vn=" ++ ",".intercalate fc.co.varnames ++ "|cv=" ++ ",".intercalate fc.cellvars ++ "|fv=" ++ ",".intercalate fc.freevars
+  ++ "|c2a=" ++ (match fc.cell2arg with | none => "nil" | some m => ",".intercalate (m.map toString))
+  ++ (match en with
+      | .ok e => if e.generator then "|lp=" ++ " ".intercalate (e.localsplus.map showSlot) else ""
+      | .error _ => "")
+
+def showSpecNs (gen : Bool) : Option Namespace → String
+  | none => "E:TypeError"
+  | some ns => showNamespace gen ns
+
+/-- a body shape: source statements (after the snapshot line) and the descriptor they compile to -/
+structure Shape where
+  tag : String
+  stmts : List String
+  fastUses : List Name
+  cells : List Name
+  others : List Name        -- the local variables of the body that are not parameters
+  free : Bool := false      -- nested in `mk(x)`, mentions `x`
+  gen : Bool := false
+
+/-- first parameter in declaration order, if any -/
+def firstParam (s : Sig) : Option Name := s.paramVarnames.head?
+
+def shapesFor (s : Sig) : List Shape :=
+  let capAll := "(lambda: (" ++ String.join (s.paramVarnames.map (· ++ ", ")) ++ "))"
+  [ { tag := "none", stmts := [], fastUses := [], cells := [], others := [] },
+    { tag := "t", stmts := ["t = 1"], fastUses := ["t"], cells := [], others := ["t"] },
+    { tag := "ct", stmts := ["if g: t = 1"], fastUses := ["t"], cells := [], others := ["t"] },
+    { tag := "tu", stmts := ["t = 1", "if g: u = t"], fastUses := ["t", "t", "u"], cells := [], others := ["t", "u"] },
+    { tag := "ut", stmts := ["if g: t = u", "u = 2"], fastUses := ["u", "t", "u"], cells := [], others := ["t", "u"] },
+    { tag := "cellt", stmts := ["t = 1", "(lambda: t)"], fastUses := [], cells := ["t"], others := ["t"] },
+    { tag := "gent", stmts := ["t = 1"], fastUses := ["t"], cells := [], others := ["t"], gen := true },
+    { tag := "freet", stmts := ["x", "t = 1"], fastUses := ["t"], cells := [], others := ["t"], free := true } ]
+  ++ (match firstParam s with
+      | none => []
+      | some p =>
+        [ { tag := "cap1", stmts := [s!"(lambda: {p})"], fastUses := [], cells := [p], others := [] },
+          { tag := "capall", stmts := [capAll, "if g: u = 1"], fastUses := ["u"], cells := s.paramVarnames, others := ["u"] },
+          { tag := "capmix", stmts := ["u = 1", s!"(lambda: ({p}, t))", "if g: t = 2"], fastUses := ["u"], cells := [p, "t"], others := ["u", "t"] },
+          { tag := "gencap", stmts := [s!"(lambda: {p})", "if g: u = 1"], fastUses := ["u"], cells := [p], others := ["u"], gen := true },
+          { tag := "freecap", stmts := [s!"(lambda: ({p}, x))", "t = 1"], fastUses := ["t"], cells := [p], others := ["t"], free := true } ])
+
+def Shape.body (sh : Shape) : Body :=
+  { fastUses := sh.fastUses, cells := sh.cells, frees := if sh.free then ["x"] else [], generator := sh.gen }
+
+inductive Form | func | lam | meth
+  deriving DecidableEq
+
+/-- source of the definition; the callable ends up in the global `f` -/
+def shapeSrc (form : Form) (s : Sig) (sh : Shape) : String :=
+  match form with
+  | .lam =>
+    -- a lambda has no statements: only the capturing shapes make sense (`stmts.head` is the capture)
+    let body := match sh.stmts.head? with
+      | some cap => s!"({cap}, locals())[1]"
+      | none => "locals()"
+    s!"f = lambda {sigSrc s}: {body}"
+  | .func =>
+    let ind := if sh.free then "        " else "    "
+    let lines := ["global R", "R = locals()"] ++ sh.stmts ++ [if sh.gen then "yield R" else "return R"]
+    let d := (if sh.free then "    " else "") ++ s!"def f({sigSrc s}):\\n" ++ "\\n".intercalate (lines.map (ind ++ ·))
+    if sh.free then "def mk(x):\\n" ++ d ++ "\\n    return f\\nf = mk(70)" else d
+  | .meth =>
+    let lines := ["global R", "R = locals()"] ++ sh.stmts ++ [if sh.gen then "yield R" else "return R"]
+    s!"class C:\\n    def m({sigSrc s}):\\n" ++ "\\n".intercalate (lines.map ("        " ++ ·)) ++ "\\nf = C().m"
+
+def tupleSrc (l : List Val) : String := "(" ++ String.join (l.map (fun v => toString v ++ ", ")) ++ ")"
+
+def locCase (form : Form) (r : Reach) (s : Sig) (sh : Shape) (c : CallExpr) : Case :=
+  -- a method's signature as compiled includes `self`
+  let s' : Sig := if form == .meth then { s with pos := ⟨"self", none⟩ :: s.pos } else s
+  let b := sh.body
+  let closure : List (Option Obj) := if sh.free then [some (.val 70)] else []
+  let fc := s'.fullCode b
+  let m := defAndEnter s' b closure r c
+  let callee : Callee := { sig := s', others := sh.others, free := if sh.free then [("x", some (.val 70))] else [],
+                           generator := sh.gen }
+  let sp := specEnter callee r c
+  let reach := match form, r with
+    | .lam, _ => "lam" | .meth, _ => "meth" | _, .pyCall => "py" | _, _ => "fn"
+  let callSrc := match r with
+    | .pyCall => s!"@ {tupleSrc c.args} @ " ++ (if c.kws.isEmpty then "-" else dictSrc c.kws)
+    | _ => s!"f({callArgsSrc [] c})"
+  { input := s!"loc:{reach}:{sh.tag}/{sigClass s}/{callClass c} | {shapeSrc form s' sh} ## {callSrc}",
+    modelV := showEntry fc m, modelR := showLayout fc m, specV := showSpecNs sh.gen sp, tags := ["nt"] }
+
+def locPos : List (List Param) := [ [], [⟨"a", none⟩], [⟨"a", none⟩, ⟨"b", some 51⟩] ]
+def locKw : List (List Param) := [ [], [⟨"k", none⟩], [⟨"k", some 60⟩] ]
+
+def locSigs : List Sig := Id.run do
+  let mut out : List Sig := []
+  for pos in locPos do
+    for kw in locKw do
+      for st in [none, some "s"] do
+        for ds in [none, some "d"] do
+          out := { pos := pos, star := st, kwonly := kw, dstar := ds } :: out
+  return out.reverse
+
+/-- keyword configurations: `(explicit keywords, **mapping)`; `single` = one keyword name from the
+universe (every parameter, the `*`/`**` names, the extra locals `t` `u`, the global `g`, the free
+variable `x`, the fresh `z`) passed explicitly or through the mapping; `pair` = a non-parameter name
+together with a second name, in the four explicit/mapping combinations -/
+def locKwConfigs (s : Sig) : List (Dict × Option StarKw) × List (Dict × Option StarKw) :=
+  let nonpar : List Name := s.star.toList ++ s.dstar.toList ++ ["t", "u", "g", "x", "z"]
+  let univ := s.names ++ nonpar
+  let singles : List (Dict × Option StarKw) :=
+    [([], none)] ++ univ.flatMap (fun n => [([(n, 20)], none), ([], some (.dict [(n, 40)]))])
+  let pairs : List (Dict × Option StarKw) :=
+    nonpar.flatMap fun n =>
+      (s.names ++ [if n == "z" then "t" else "z"]).flatMap fun q =>
+        [ ([(n, 20), (q, 21)], none), ([(n, 20)], some (.dict [(q, 41)])),
+          ([(q, 21)], some (.dict [(n, 40)])), ([], some (.dict [(n, 40), (q, 41)])) ]
+  (singles, pairs)
+
 def emit (c : Case) : IO Unit := IO.println c.line
 
 def genMain (tier : String) (seed : Nat) : IO Unit := do
@@ -249,6 +406,32 @@ def genMain (tier : String) (seed : Nat) : IO Unit := do
               { args := [10], kws := [], star := none, dstar := some .notDict },
               { args := [], kws := [("z", 20)], star := some (.seq [30]), dstar := some .notDict }] do
       emit (defCase s c)
+  -- round 3: callees with a body
+  for s in locSigs do
+    let (singles, pairs) := locKwConfigs s
+    for sh in shapesFor s do
+      for na in [0, 1, 2] do
+        let args := (List.range na).map (10 + ·)
+        for (kws, ds) in singles do
+          emit (locCase .func .direct s sh { args := args, kws := kws, star := none, dstar := ds })
+        for (kws, ds) in pairs do
+          let (r, x) := rng.nat 8
+          rng := r
+          if thorough || x == 0 then
+            emit (locCase .func .direct s sh { args := args, kws := kws, star := none, dstar := ds })
+        -- other ways to reach the function: lambda, bound method, py.Call from Go
+        for (kws, ds) in singles ++ pairs do
+          let (r, x) := rng.nat 16
+          rng := r
+          let pick := thorough || x < 4 || (kws.length + (match ds with | some (.dict d) => d.length | _ => 0) ≤ 1 && x < 8)
+          if pick then
+            let c : CallExpr := { args := args, kws := kws, star := none, dstar := ds }
+            if sh.tag == "none" || sh.tag == "cap1" then emit (locCase .lam .direct s sh c)
+            if ["none", "tu", "cap1", "capmix", "gent"].contains sh.tag then emit (locCase .meth (.bound 99) s sh c)
+            if ["t", "ut", "capall", "gencap", "freet"].contains sh.tag && (ds == none) then emit (locCase .func .pyCall s sh c)
+      -- `*seq` together with a non-parameter keyword
+      for n in ["t", "z"] ++ s.star.toList do
+        emit (locCase .func .direct s sh { args := [10], kws := [(n, 20)], star := some (.seq [30, 31]), dstar := none })
   for (a, k) in [(254, 0), (255, 0), (256, 0), (257, 0), (0, 255), (0, 256), (255, 255), (256, 256), (3, 300), (512, 0)] do
     emit (bigCase a k)
   for (a, k) in [(255, 0), (256, 0), (0, 255), (0, 256), (128, 127), (128, 128), (200, 200)] do
